@@ -441,5 +441,6 @@ pub fn run(ctx: &mut Ctx) {
     let _ = al::v0;
     crate::spaces::render_probes(ctx, &["if", "?:", "and", "or"]);
     crate::spaces::width_probes(ctx);
+    crate::spaces::sweep::length_sweep(ctx);
     crate::spaces::type_grid_probes(ctx, &["if", "?:", "and", "or"]);
 }
